@@ -264,7 +264,17 @@ def job_run(args):
         cmd = [hb, "trace", "corpus", str(seed), "0", "1", tier, tr, gen[7:]]
     else:
         cmd = [hb, "trace", gen, str(seed), str(shard), str(nshards), tier, tr]
-    p = subprocess.run(cmd, stdout=subprocess.PIPE, stderr=subprocess.PIPE, timeout=3000)
+    def _limits():
+        import resource
+        # a generator that does not terminate on a changed crate must not take the machine down
+        resource.setrlimit(resource.RLIMIT_AS, (12 << 30, 12 << 30))
+    try:
+        p = subprocess.run(cmd, stdout=subprocess.PIPE, stderr=subprocess.PIPE, timeout=(600 if tier == "quick" else 3000), preexec_fn=_limits)
+    except subprocess.TimeoutExpired:
+        res["impl_rc"] = 124
+        res["stats"] = {}
+        res["error"] = "harness did not terminate within the time limit: a generated game does not end on this crate (job %s)" % name
+        return res
     res["impl_rc"] = p.returncode
     try:
         res["stats"] = json.loads(p.stdout.decode().strip().splitlines()[-1])
